@@ -84,7 +84,7 @@ func genC08(fam string, seed uint64, cmd bool) *world.Scenario {
 				ft := world.FaultSpec{Target: "sensor:" + s.ID, Nth: r.Range(0, npoll-1), Count: kernel.Pick(r, 1, 1, 2, 5, 20)}
 				if kind == "cmd" {
 					ft.Op = "exec"
-					ft.Kind = kernel.Pick(r, "exit1", "exit1out", "garbage", "nan", "inf", "-inf", "empty", "timeout", "killed", "huge")
+					ft.Kind = kernel.Pick(r, "exit1", "exit1out", "garbage", "grouped", "nan", "inf", "-inf", "empty", "timeout", "killed", "huge")
 				} else {
 					ft.Op = "read"
 					ft.Kind = kernel.Pick(r, "eio", "missing", "empty", "garbage", "huge", "eacces")
@@ -113,6 +113,8 @@ type c08Sensor struct {
 	reported   map[string]bool
 	execFault  string
 	otherFault string
+	altOK      bool    // the poll in progress printed a number with thousands grouping: skipping it or
+	altVal     float64 // taking it for this value are both acceptable
 	polls      int
 	failedPoll int
 }
@@ -171,6 +173,12 @@ func (o *c08Oracle) OnEvent(ev *kernel.Event) {
 		}
 		s := o.s[tg.ID]
 		s.pollSeen = true
+		s.altOK = false
+		if s.execFault == "exec.grouped" {
+			if v, err := strconv.ParseFloat(strings.ReplaceAll(strings.TrimSpace(ev.Out), ",", ""), 64); err == nil && strings.Contains(ev.Out, ",") {
+				s.altOK, s.altVal = true, v
+			}
+		}
 		if s.execFault != "" {
 			// every planted command fault (exit != 0 with or without output, killed, garbage, nan/inf,
 			// empty, huge) makes the poll a failed one, whatever the call returned
@@ -251,6 +259,15 @@ func (o *c08Oracle) judge(ev *kernel.Event, s *c08Sensor, avg float64) {
 		}
 		s.prev, s.constK = avg, 0
 		return
+	}
+	if !s.pollOK && s.altOK && avg != s.prev {
+		// the grouped number was taken for a reading: then for the number it is
+		res.Probe("grouped-number-understood")
+		want := s.prev + (s.altVal-s.prev)/n
+		if !(math.Abs(avg-want) <= 1e-9*(1+math.Abs(want))) {
+			report("unchanged-on-failed-poll", "grouped-number-misread", "sensor %s (%s): the command printed a number with thousands grouping (%v); the smoothed value went %v → %v, which is neither unchanged nor an update with that number (%v)", s.spec.ID, s.spec.Kind, s.altVal, s.prev, avg, want)
+		}
+		s.pollOK, s.pollVal = true, s.altVal
 	}
 	if !s.pollOK {
 		s.failedPoll++
